@@ -89,6 +89,9 @@ func New(id, level, tier string) *Ctx {
 
 func (c *Ctx) Thorough() bool { return c.Tier == "thorough" }
 
+// Lite: a thinned workload (set for the re-run of a pure check under an odd CPU count).
+func (c *Ctx) Lite() bool { return os.Getenv("VERIF_LITE") == "1" }
+
 func (c *Ctx) loadFindings() {
 	f, err := os.Open(filepath.Join(Root, "KNOWN_FINDINGS.txt"))
 	if err != nil {
